@@ -30,6 +30,8 @@ CHECKS = {
          "exhaustive enumeration of bounded value alphabets on the real writer/parser/serialiser; round-trip identity"),
  "C15": ("all token sequences <= L over a 30-token alphabet and all ordered ledgers <= k events over a 7-magnitude alphabet at 5 calendar positions through parse->validate->calculate->format under catch_unwind in watchdog-guarded child processes; CLI fault menu (one process per cell); validator truth table",
          "exhaustive enumeration of bounded input sequences and of a fault menu on the real code; no panic/abort/hang, atomic failure"),
+ "C16": ("iteration-order explorer over the cfg-gated verif_map hook: every schedule of map-traversal permutations with <= d non-identity choices on three many-security ledgers; byte equality of text/JSON/full-precision report (and PDF text) with the identity execution; stated orders; repeated CLI processes as an additional sample",
+         "deviation-bounded exhaustive exploration of hash-map iteration orders (controlled scheduler over a cfg-gated hook) on the real code"),
  "C18": ("every multiset of <= k rows over a 24-row Schwab alphabet x all row orders x all date-disjoint cuts, converted by the real converter and compared with a reference row->line map; output parsed by an independent recogniser and by the tool; CLI convert|report",
          "exhaustive enumeration of bounded row sequences x all row orders x all chunk cuts on the real converter vs reference map"),
  "C19": ("all 4096 subsets of vest-entry offsets -9..+2 x 5 entry-kind patterns x symbol case x 5 deposit dates, converted by the real converter and compared with a five-line reference look-up",
@@ -38,6 +40,8 @@ CHECKS = {
          "exhaustive enumeration of prefix/continuation edges of the bounded ledger graph on the real code"),
 }
 ALL = ["C%02d" % i for i in range(1, 21)]
+import subprocess
+HOOK_COMMITS = [l.split()[0] for l in subprocess.check_output(["git","-C","/repo","log","--format=%h %s"]).decode().splitlines() if l.split(" ",1)[1].startswith("verif hook")]
 m = {
  "version": 1,
  "setup_cmd": "./setup.sh",
@@ -45,11 +49,12 @@ m = {
    "guard": "cargo feature `verif-hooks` (off by default) on cgt-core and cgt-formatter-pdf",
    "enable": "the harness crates under /verif/harness enable the feature on their path dependencies (features = [\"verif-hooks\"]); nothing in /repo enables it",
    "baseline_off_cmd": "cd /repo && cargo test --workspace --no-fail-fast --offline",
-   "source_commits": [],
+   "source_commits": HOOK_COMMITS,
    "add_only": True,
  },
  "engines": [
-   {"name": "mc-core", "path": "harness/mc-core", "serves_properties": sorted(CHECKS), "kind_free_text": "hand-rolled rayon-parallel explicit-state explorer: tree of insertions into a canonical multiset of events, real cgt-core executed at every state, exact-rational reference model (harness/mcx)"},
+   {"name": "mc-front", "path": "harness/mc-front", "serves_properties": ["C16", "C17"], "kind_free_text": "engines that need the verif-hooks feature: iteration-order explorer (schedules of map-traversal permutations) and PDF text-run extraction"},
+   {"name": "mc-core", "path": "harness/mc-core", "serves_properties": sorted(c for c in CHECKS if c not in ("C16","C17")), "kind_free_text": "hand-rolled rayon-parallel explicit-state explorer: tree of insertions into a canonical multiset of events, real cgt-core executed at every state, exact-rational reference model (harness/mcx)"},
  ],
  "checks": [],
  "not_applicable": [],
@@ -64,7 +69,7 @@ for pid in ALL:
           "thorough_cmd": f"./check {pid} thorough",
           "evidence_file": f"/verif/evidence/{pid}.json",
           "replay_cmd_template": f"./check {pid} --replay {{path}}",
-          "engine": "mc-core",
+          "engine": "mc-front" if pid in ("C16","C17") else "mc-core",
           "level_claimed": {"category": "model_checking", "text": text, "design_ref": f"DESIGN.md §6 {pid}"},
           "level_note": "bounded: only the alphabets and event counts recorded in the evidence file are covered; decimal equality is |diff| <= 1e-9; reference model validated against the repository's golden JSON fixtures on every run",
           "technique": tech,
